@@ -378,6 +378,14 @@ class C09(Check):
         'the oracle gets error objects rebuilt from their status and body, so that state left on the shared objects '
         'is visible as a difference',
         'assumptions of C03 about the handler zoo',
+        'application code may store extension attributes / items on the reused request object (request.user = v, '
+        'request._token = v, request[key] = v): modelled as living in the per-request environ; the probing handler '
+        'kinds (login / whoami) answer with what they read back',
+        'retention bound: stated for applications whose after_request hooks do not raise, or that raise no '
+        'module-level response object of their own (theorem singleton_residue shows the remaining corner); the '
+        'retention measurements use hook-free applications',
+        'handlers behind wildcard rules and upload handlers answer with what they read; that text is obtained from '
+        'the pristine reference process and shipped to the model (routing and multipart parsing are C01/C07)',
     ]
 
     def budget(self, tier, escalated):
@@ -398,7 +406,9 @@ class C09(Check):
                 kind = rng.choice(['badpath', 'nf', 'na', 'crash', 'chunked-garbage', 'oversize', 'bad-json',
                                    'request-error', 'cookie-then-body-error'])
             elif rng.random() < .25:
-                kind = rng.choice(['ok-cookie', 'raise-resp'])
+                kind = rng.choice(['ok-cookie', 'raise-resp', 'login'])
+            if hist and any(h['kind'] == 'login' for h in hist[-2:]) and rng.random() < .5:
+                kind = 'whoami'          # login-then-anonymous, directly or across one other request
             hist.append(gen_hreq(g, rng, i + 1, kind, spec))
         return hist
 
@@ -638,7 +648,7 @@ class C09(Check):
                 findings.append(Finding(f'C09:{key}', what, dict(kind='history', app=enc(spec), hist=enc(hist))))
         sizes = [10, 100, 1000] if n < 2000 else [10, 100, 1000, 5000]
         fail_kinds = ['chunked-garbage', 'chunked-truncated', 'oversize', 'oversize-chunked', 'bad-json',
-                      'request-error', 'crash', 'badpath', 'nf', 'na', 'cookie-then-body-error']
+                      'request-error', 'crash', 'badpath', 'nf', 'na', 'cookie-then-body-error', 'app-error']
         evals += 1
         for name, before, after in self.reference().measure('class-state', '-', 2, rng.randrange(1 << 30)):
             findings.append(Finding(f'C09:class-state:{name}',
